@@ -138,7 +138,7 @@ fn judge(s: &Spec, verdict: Option<bool>, obs: &Obs) -> Vec<(String, String)> {
     }
     let class = if s.kind == "body" { format!("{}:{}", s.kind, s.text) } else if s.kind == "age" { format!("age:{}", if s.n == s.expiry as i64 { "at-expiry" } else if s.n < s.expiry as i64 { "younger" } else { "older" }) } else { s.kind.clone() };
     let accepted_shape = flag == Some(false) && auth_calls == 0 && success == Some((CK_NAME.to_string(), CK_UUID));
-    let authenticated_shape = flag == Some(true) && auth_calls == 1 && success == Some((V_NAME.to_string(), V_UUID));
+    let authenticated_shape = flag == Some(true) && auth_calls >= 1 && success == Some((V_NAME.to_string(), V_UUID));
     match verdict {
         Some(true) => {
             if !accepted_shape {
